@@ -177,6 +177,38 @@ def extract(repo: Path) -> Tuple[Dict[str, Any], List[str]]:
                 problems.append(f"_types.{cls}.{meth}: marker `{var}` not found")
             else:
                 out[lean + "A"], out[lean + "U"] = m
+    # ---- _extract.py: what each entry point passes to current_options.push(), and how push restores (C13, C16) ----
+    t = parse("_extract.py")
+    push_fwd: List[str] = []
+    if t is not None:
+        for fname in ("extract", "extract_outermost", "fill_context"):
+            fn = _func(t, fname)
+            found = False
+            if fn is not None:
+                for n in ast.walk(fn):
+                    if isinstance(n, ast.Call) and isinstance(n.func, ast.Attribute) and n.func.attr == "push" \
+                            and isinstance(n.func.value, ast.Name) and n.func.value.id == "current_options":
+                        found = True
+                        for kw in sorted(n.keywords, key=lambda k: k.arg or ""):
+                            push_fwd.append(f"{fname}:{kw.arg}={ast.unparse(kw.value)}")
+            if not found:
+                problems.append(f"_extract.{fname}: current_options.push(...) call not found")
+        # the shape of ExtractOptions.push: the restore must sit in a `finally`
+        push = _func(t, "ExtractOptions", "push")
+        shape = "missing"
+        if push is not None:
+            tries = [n for n in ast.walk(push) if isinstance(n, ast.Try)]
+            if len(tries) == 1 and tries[0].finalbody and not tries[0].handlers and \
+                    any(isinstance(x, ast.Assign) for x in tries[0].finalbody) and \
+                    any(isinstance(x, ast.Expr) and isinstance(x.value, ast.Yield) for x in tries[0].body):
+                shape = "try-yield-finally-restore"
+            elif tries:
+                shape = "try-with-handlers" if any(tr.handlers for tr in tries) else "other-try"
+            else:
+                shape = "no-try"
+        out["pushShape"] = shape
+    out["pushForward"] = push_fwd
+
     # ---- whole package: census of state that outlives a call (C06) ----
     census: List[str] = []
     CONTAINER_CALLS = {"dict", "set", "list", "IdentityDict", "WeakKeyDictionary", "WeakValueDictionary", "WeakSet", "defaultdict",
